@@ -96,4 +96,115 @@ theorem iter_some_result (c : Nat) (step : St → Out) (hstep : ∀ N, Advances 
   have : dist st * c ≤ st.n * c := Nat.mul_le_mul_right c hd
   exact ⟨h2, h3, h4, by omega⟩
 
+/-! ### Variants for the other autohinter loops (Gen/AutohintLoops.lean) -/
+
+theorem cnext_spec (n i : Nat) : (i + 1 < n ∧ cnext n i = i + 1) ∨ (n ≤ i + 1 ∧ cnext n i = 0) := by
+  unfold cnext; split <;> omega
+
+theorem cprev_spec (n i : Nat) : (0 < i ∧ cprev n i = i - 1) ∨ (i = 0 ∧ cprev n i = n - 1) := by
+  unfold cprev; split <;> omega
+
+theorem cnext_lt (n i : Nat) (h : 0 < n) : cnext n i < n := by
+  have := cnext_spec n i; omega
+
+theorem cprev_lt (n i : Nat) (hi : i < n) : cprev n i < n := by
+  have := cprev_spec n i; omega
+
+/-- **Generic fuelled termination by a measure**: if under an invariant every body execution breaks or continues
+into a state with the invariant and a strictly smaller measure, the loop exits within `μ s + 1` body executions. -/
+theorem iter_measure (step : St → Out) (Inv : St → Prop) (μ : St → Nat) (c : Nat)
+    (hstep : ∀ s, Inv s →
+      (∃ s', step s = .brk s' ∧ s'.n = s.n ∧ s.tick < s'.tick ∧ s'.tick ≤ s.tick + c) ∨
+      (∃ s', step s = .cont s' ∧ Inv s' ∧ s'.n = s.n ∧ μ s' < μ s ∧ s.tick < s'.tick ∧ s'.tick ≤ s.tick + c)) :
+    ∀ (fuel : Nat) (s : St), Inv s → μ s < fuel →
+      ∃ s', iter step fuel s = some s' ∧ s'.n = s.n ∧ s.tick < s'.tick ∧ s'.tick ≤ s.tick + (μ s + 1) * c := by
+  intro fuel
+  induction fuel with
+  | zero => intro s _ hd; omega
+  | succ f ih =>
+    intro s hI hd
+    rcases hstep s hI with ⟨s', hs, hn, ht0, ht⟩ | ⟨s', hs, hI', hn, hμ, ht0, ht⟩
+    · refine ⟨s', by simp [iter, hs], hn, ht0, ?_⟩
+      have : c ≤ (μ s + 1) * c := Nat.le_mul_of_pos_left c (by omega)
+      omega
+    · obtain ⟨s'', hit, hn'', ht0'', ht''⟩ := ih s' hI' (by omega)
+      refine ⟨s'', by simp [iter, hs, hit], by omega, by omega, ?_⟩
+      have h1 : (μ s' + 1 + 1) * c ≤ (μ s + 1) * c := Nat.mul_le_mul_right c (by omega)
+      rw [Nat.succ_mul] at h1
+      omega
+
+/-- forward distance, 0 when equal: in `0..n` -/
+def dist0 (s : St) : Nat := if s.last ≤ s.segFirst then s.segFirst - s.last else s.segFirst + s.n - s.last
+
+/-- backward distance (number of cyclic retreats, at least one, that take `last` to `segFirst`): in `1..=n` -/
+def distB (s : St) : Nat := if s.segFirst < s.last then s.last - s.segFirst else s.last + s.n - s.segFirst
+
+/-- Contract of a TEST-FIRST forward scan (`while last != target { …; last = next(last) }`, or
+`loop { …; if last == target { break }; last = next(last) }`): the body continues only from `last ≠ segFirst`, and
+then with `last` advanced cyclically. -/
+def AdvancesPre (N c : Nat) (step : St → Out) : Prop :=
+  ∀ s : St, s.n = N → s.last < s.n → s.segFirst < s.n →
+    (∃ s', step s = .brk s' ∧ s'.n = s.n ∧ s.tick < s'.tick ∧ s'.tick ≤ s.tick + c) ∨
+    (∃ s', step s = .cont s' ∧ s.last ≠ s.segFirst ∧ s'.n = s.n ∧ s'.segFirst = s.segFirst ∧
+        s'.last = cnext s.n s.last ∧ s.tick < s'.tick ∧ s'.tick ≤ s.tick + c)
+
+/-- Contract of a test-after-advance BACKWARD scan (`loop { last = prev(last); …; if last == target { break } }`). -/
+def Retreats (N c : Nat) (step : St → Out) : Prop :=
+  ∀ s : St, s.n = N → s.last < s.n → s.segFirst < s.n →
+    (∃ s', step s = .brk s' ∧ s'.n = s.n ∧ s.tick < s'.tick ∧ s'.tick ≤ s.tick + c) ∨
+    (∃ s', step s = .cont s' ∧ s'.n = s.n ∧ s'.segFirst = s.segFirst ∧ s'.last = cprev s.n s.last ∧
+        s'.last ≠ s.segFirst ∧ s.tick < s'.tick ∧ s'.tick ≤ s.tick + c)
+
+private def InvN (N : Nat) (s : St) : Prop := s.n = N ∧ s.last < s.n ∧ s.segFirst < s.n
+
+/-- a test-first forward scan exits within `n` body executions, `n * c` ticks -/
+theorem iter_advances_pre (N c : Nat) (step : St → Out) (hstep : AdvancesPre N c step) (s : St)
+    (hN : s.n = N) (hl : s.last < s.n) (hf : s.segFirst < s.n) :
+    ∃ s', iter step (s.n + 1) s = some s' ∧ s'.n = s.n ∧ s.tick < s'.tick ∧ s'.tick ≤ s.tick + s.n * c := by
+  have key := iter_measure step (InvN N) dist0 c (by
+    intro s ⟨hN, hl, hf⟩
+    rcases hstep s hN hl hf with ⟨s', hs, h⟩ | ⟨s', hs, hne, hn, hsf, hnx, ht⟩
+    · exact .inl ⟨s', hs, h⟩
+    · have := cnext_spec s.n s.last
+      refine .inr ⟨s', hs, ⟨by omega, by omega, by omega⟩, hn, ?_, ht⟩
+      unfold dist0; rw [hn, hsf]; split <;> split <;> omega) (s.n + 1) s ⟨hN, hl, hf⟩
+    (by unfold dist0; split <;> omega)
+  obtain ⟨s', h1, h2, h3, h4⟩ := key
+  have : (dist0 s + 1) * c ≤ s.n * c := Nat.mul_le_mul_right c (by unfold dist0; split <;> omega)
+  exact ⟨s', h1, h2, h3, by omega⟩
+
+/-- a backward scan exits within `n` body executions, `n * c` ticks -/
+theorem iter_retreats (N c : Nat) (step : St → Out) (hstep : Retreats N c step) (s : St)
+    (hN : s.n = N) (hl : s.last < s.n) (hf : s.segFirst < s.n) :
+    ∃ s', iter step (s.n + 1) s = some s' ∧ s'.n = s.n ∧ s.tick < s'.tick ∧ s'.tick ≤ s.tick + s.n * c := by
+  have key := iter_measure step (InvN N) (fun s => distB s - 1) c (by
+    intro s ⟨hN, hl, hf⟩
+    rcases hstep s hN hl hf with ⟨s', hs, h⟩ | ⟨s', hs, hn, hsf, hpv, hne, ht⟩
+    · exact .inl ⟨s', hs, h⟩
+    · have := cprev_spec s.n s.last
+      refine .inr ⟨s', hs, ⟨by omega, by omega, by omega⟩, hn, ?_, ht⟩
+      show distB s' - 1 < distB s - 1
+      unfold distB; rw [hn, hsf]; split <;> split <;> omega) (s.n + 1) s ⟨hN, hl, hf⟩
+    (by show distB s - 1 < s.n + 1; unfold distB; split <;> omega)
+  obtain ⟨s', h1, h2, h3, h4⟩ := key
+  have : (distB s - 1 + 1) * c ≤ s.n * c := Nat.mul_le_mul_right c (by unfold distB; split <;> omega)
+  exact ⟨s', h1, h2, h3, by omega⟩
+
+/-- a nested test-first scan inside a generated step function: the `none` arm is dead … -/
+theorem iter_pre_none_absurd (c : Nat) (step : St → Out) (hstep : ∀ N, AdvancesPre N c step) (st : St) (fuel : Nat)
+    (hi : iter step fuel st = none) (hfu : fuel = st.n + 1) (hl : st.last < st.n) (hf : st.segFirst < st.n) :
+    False := by
+  subst hfu
+  obtain ⟨s', h, _⟩ := iter_advances_pre st.n c step (hstep st.n) st rfl hl hf
+  rw [h] at hi; cases hi
+
+/-- … and the `some` arm has kept `n` and spent between 1 and `n * c` ticks -/
+theorem iter_pre_some_result (c : Nat) (step : St → Out) (hstep : ∀ N, AdvancesPre N c step) (st r : St) (fuel : Nat)
+    (hi : iter step fuel st = some r) (hfu : fuel = st.n + 1) (hl : st.last < st.n) (hf : st.segFirst < st.n) :
+    r.n = st.n ∧ st.tick < r.tick ∧ r.tick ≤ st.tick + st.n * c := by
+  subst hfu
+  obtain ⟨s', h, h2⟩ := iter_advances_pre st.n c step (hstep st.n) st rfl hl hf
+  rw [h] at hi; cases hi
+  exact h2
+
 end FontVerif.LoopIterLemmas
